@@ -30,7 +30,7 @@ class Ctx:
         self._rec('HOLDS', rule, instance, where, detail)
 
     # rules that are ABOUT state a change introduces (memos, caches, stale values, shared tables, deferred steps): their evidence names new storage by design
-    _STATE_RULES = ('|stale|', 'memo', '|cache', 'cache-', '|slot', 'lazy-generator', 'late-binding', '|discarded|', '|shared', 'C18.', '|one-shot|', '|aliased|', '|state|', '|clock', 'neg-cache')
+    _STATE_RULES = ('|stale|', 'memo', '|cache', 'cache-', '|slot', 'lazy-generator', 'late-binding', '|discarded|', '|shared', 'C18.', '|one-shot|', '|aliased|', '|state|', '|clock', 'neg-cache', '|stateless', '|straight')
 
     def violation(self, rule, instance, where=None, detail=None, key=None):
         # (a rule that followed every callee on the path at hand and found no unread call says so: 'READ: ...' - absence is then a finding, not a blind spot)
